@@ -311,6 +311,13 @@ mod n {
                 let win = winp(uid(1), Some(&w0), 1.5, Some(1.1), None);
                 p.walls.insert(uid(1), w0.clone());
                 p.walls.insert(uid(2), w1.clone());
+                if c.tier_thorough {
+                    // thorough: a third wall over boundary kind x in/out x computed U {none, 0.2}
+                    let b = c.of(&BOUNDS);
+                    let tenv = c.flag();
+                    let u = c.of(&[None, Some(0.2f32)]);
+                    p.walls.insert(uid(3), wallp(b, Tilt::TOP, tenv, 1.5, 7.5, u, None));
+                }
                 p.windows.insert(uid(11), win);
                 p.thermal_bridges.insert(uid(21), TbProps { kind: ThermalBridgeKind::CORNER, l: 4.0, psi: 0.1 });
                 p.thermal_bridges.insert(uid(22), TbProps { kind: ThermalBridgeKind::WINDOW, l: -1.0, psi: 0.3 });
@@ -523,8 +530,9 @@ mod n {
                 let mut q_want = 0.0f64;
                 let mut a_want = 0.0f64;
                 let mut per_orient: HashMap<Orientation, (f64, f64, f64, f64, f64)> = HashMap::new(); // gains, a, ff*a, g*a, fsh*a
-                for i in 0..2u128 {
-                    let o = c.of(&[Orientation::S, Orientation::NE, Orientation::HZ]);
+                let nwin: u128 = if c.tier_thorough { 3 } else { 2 };
+                for i in 0..nwin {
+                    let o = if i < 2 { c.of(&[Orientation::S, Orientation::NE, Orientation::HZ]) } else { c.of(&[Orientation::W, Orientation::SE, Orientation::N, Orientation::E, Orientation::SW, Orientation::NW]) };
                     let b = c.of(&[BoundaryType::EXTERIOR, BoundaryType::GROUND, BoundaryType::INTERIOR]);
                     let tenv = c.flag();
                     let m = c.of(&[1.0f32, 2.0]);
